@@ -2,6 +2,7 @@
 import Driver.Loop
 import NumqiModel.Entangle
 import NumqiModel.Decision
+import NumqiModel.SymExt
 
 namespace Numqi.Driver.C05
 open Numqi Numqi.Ent
@@ -86,8 +87,52 @@ def singleEntryQ? (rows cols : Nat) (m : Nat → Nat → QI) : Option QI := Id.r
         | some _ => return none
   return some (found.getD 0)
 
+def validSx (dA dB kext : Nat) : Bool := dA ≥ 2 && dB ≥ 2 && kext ≥ 2 && dA * dB ^ kext ≤ 4096
+
+/-- one product term `w:a_0;a_1;…:b_0;b_1;…` (Gaussian integers) -/
+def parseTerm? (dA dB : Nat) (s : String) : Option (GInt × (Nat → GInt) × (Nat → GInt)) :=
+  match s.splitOn ":" with
+  | [w, a, b] => do
+      let w ← parseGInt? w
+      let a ← parseGIntList? a
+      let b ← parseGIntList? b
+      if a.length ≠ dA || b.length ≠ dB then none
+      else
+        let aa := a.toArray
+        let ba := b.toArray
+        pure (w, (fun i => aa.getD i 0), (fun i => ba.getD i 0))
+  | _ => none
+
 def handle (args : List String) : String :=
   match args with
+  | ["sxidx", dA, dB, kext] => Id.run do
+      let some dA := dA.toNat? | return "bad-op"
+      let some dB := dB.toNat? | return "bad-op"
+      let some kext := kext.toNat? | return "bad-op"
+      if !validSx dA dB kext then return "bad-op"
+      let N := prodL (sxDims dA dB kext)
+      let l2 := (List.range (sxNumPerm kext)).map fun w => natsStr ((List.range N).map (sxPermIndex dA dB kext w))
+      let l1 := (List.range (sxNumPerm kext)).map fun w => natsStr ((List.range (N * N)).map (sxPermIndex1d dA dB kext w N))
+      return "|".intercalate l2 ++ "#" ++ "|".intercalate l1
+  | ["sxcon", dA, dB, kext, ents] => Id.run do
+      let some dA := dA.toNat? | return "bad-op"
+      let some dB := dB.toNat? | return "bad-op"
+      let some kext := kext.toNat? | return "bad-op"
+      let some e := parseGIntList? ents | return "bad-op"
+      if !validSx dA dB kext then return "bad-op"
+      let N := prodL (sxDims dA dB kext)
+      if e.length ≠ N * N then return "bad-op"
+      let X := matOf N e.toArray
+      let perms := (List.range (sxNumPerm kext)).map fun w => dumpMat N N (sxPermuted dA dB kext w X)
+      return (sxTrace N X).toStr ++ "|" ++ dumpMat (dA * dB) (dA * dB) (sxReduced dB kext X) ++ "|" ++ "|".intercalate perms
+  | ["sxwit", dA, dB, kext, terms] => Id.run do
+      let some dA := dA.toNat? | return "bad-op"
+      let some dB := dB.toNat? | return "bad-op"
+      let some kext := kext.toNat? | return "bad-op"
+      if !validSx dA dB kext then return "bad-op"
+      let some ts := (terms.splitOn "|").mapM (parseTerm? dA dB) | return "bad-op"
+      let N := prodL (sxDims dA dB kext)
+      return dumpMat N N (sxWitness dA dB kext ts) ++ "|" ++ dumpMat (dA * dB) (dA * dB) (sxSepState dA dB kext ts)
   | ["gpptlist", n] => Id.run do
       let some n := n.toNat? | return "bad-op"
       if n < 2 || n > 6 then return "bad-op"
